@@ -11,13 +11,25 @@ _Bool g_present; unsigned long g_pidx;
 unsigned long g_finds, g_stores;
 void *g_qkey;          /* key object the caller asked about */
 void *g_find_key;      /* key object the map was queried with / stored under (last) */
+void *g_last_entry;    /* the index-map entry the last operator[] handed out */
+#ifdef BTR_REDRAW       /* units with several stores (rebuild of the index): each store may meet a new or an existing key */
+#define BTR_DRAW g_present = nondet_bool();
+#else
+#define BTR_DRAW
+#endif
 #undef DECL_UMAP
 #define DECL_UMAP(N, K, V) DECL_SEQ_(umap_, N, struct pair_##N) \
   static inline struct pair_##N *umap_##N##__find(struct umap_##N *s, K *k) { \
     if (g_finds < 1000) g_finds++; g_find_key = (void *)k->key_; \
     if (!g_present) return (struct pair_##N *)0; \
     struct pair_##N fresh; fresh.first = *k; fresh.second = (V)g_pidx; umap_##N##__cur = fresh; return &umap_##N##__cur; } \
+  /* operator[]: a new key is appended (it becomes the watched entry if it lands on the watched position); an existing equal key keeps its \
+     stored key object and may be the watched entry */ \
   static inline V *umap_##N##__index(struct umap_##N *s, K *k) { \
+    struct pair_##N *e; struct pair_##N fresh; \
     if (g_stores < 1000) g_stores++; g_find_key = (void *)k->key_; \
-    if (!g_present) { s->n++; } \
-    struct pair_##N fresh; fresh.first = *k; fresh.second = (V)g_pidx; umap_##N##__cur = fresh; return &umap_##N##__cur.second; }
+    BTR_DRAW \
+    if (!g_present) { e = (s->n == s->wi) ? &s->wv : &umap_##N##__cur; s->n++; fresh.first = *k; *e = fresh; } \
+    else if (s->wi < s->n && nondet_bool()) { e = &s->wv; } \
+    else { e = &umap_##N##__cur; fresh.first = *k; fresh.second = (V)g_pidx; *e = fresh; } \
+    g_last_entry = (void *)e; return &e->second; }
